@@ -40,6 +40,8 @@ type Schedule struct {
 	Seed uint64 `json:"seed"`
 	Pct  int    `json:"pct,omitempty"`
 	Site string `json:"site,omitempty"`
+	// SiteCode is the permutation code used at Site in "site" mode (0 = seeded shuffle, 1 = reverse ...)
+	SiteCode int `json:"site_code,omitempty"`
 }
 
 type Event struct {
@@ -125,6 +127,9 @@ func decide(k int, site string, n int) int {
 		return 0
 	case "site":
 		if site == sched.Site {
+			if sched.SiteCode > 0 {
+				return sched.SiteCode
+			}
 			return 5
 		}
 		return 0
